@@ -474,6 +474,7 @@ def c27(ck, F, tier):
     ck.rule("SPILL", "spill write/clear guards and constructors", floor=8)
     guarded(ck, rs.wellformed_guards, F)
     guarded(ck, rs.spill_rules, F)
+    guarded(ck, rs.descriptor_order, F)
 
 
 def c30(ck, F, tier):
